@@ -753,7 +753,8 @@ fn gen_bn(thorough: bool, rng: &mut Rng) -> Result<(), String> {
             em.case("rshift", vec![json!(x), json!(s)], "edge-cross");
         }
     }
-    // a negative index of set_bit aborts the pure-Rust build: run in a child process
+    // a negative index of set_bit used to abort the pure-Rust build (fixed: an error now); still run in a
+    // child process so that a regression cannot take the generator down
     em.case("set_bit", vec![json!("5"), json!(-1)], "edge-index");
     em.case("set_bit", vec![json!("0"), json!(-2147483648i64)], "edge-index");
     exp_cases(&mut em, thorough, rng);
